@@ -513,22 +513,133 @@ theorem deletePaymentsAndReleaseHolds_inv {s s' : State} {ps : List Payment} (hi
       refine ⟨this.1, fun b e => ?_⟩
       rw [this.2, hh1, paysObl_cons]; omega
 
-theorem rejectPayments_inv {s s' : State} {t : Addr} {srcs : List Addr} (hi : Inv s)
+theorem paysObl_append (l1 l2 : List Payment) (b : Addr) (e : Denom) :
+    paysObl (l1 ++ l2) b e = paysObl l1 b e + paysObl l2 b e := by
+  induction l1 with
+  | nil => simp
+  | cons p t ih => simp only [List.cons_append, paysObl_cons, ih]; omega
+
+/-- a filter that is the disjoint union of two others sums to the sum of the two -/
+theorem paysObl_filter_split (ps : List Payment) (P Q R : Payment → Bool)
+    (h : ∀ p ∈ ps, P p = (Q p || R p) ∧ (Q p && R p) = false) (b : Addr) (e : Denom) :
+    paysObl (ps.filter P) b e = paysObl (ps.filter Q) b e + paysObl (ps.filter R) b e := by
+  induction ps with
+  | nil => simp
+  | cons p t ih =>
+    have ht := ih (fun q hq => h q (List.mem_cons_of_mem _ hq))
+    obtain ⟨h1, h2⟩ := h p (by simp)
+    simp only [List.filter_cons, h1]
+    cases hq : Q p <;> cases hr : R p <;> simp_all [paysObl_cons] <;> omega
+
+theorem paysObl_filter_congr (ps : List Payment) (P Q : Payment → Bool) (h : ∀ p ∈ ps, P p = Q p)
+    (b : Addr) (e : Denom) : paysObl (ps.filter P) b e = paysObl (ps.filter Q) b e := by
+  rw [List.filter_congr h]
+
+/-- The loop of `RejectPayments`: what it collects are stored payments to the target of the listed
+(not yet seen) accounts, no payment twice, and their source amounts add up to those of every
+stored payment to the target of a listed, not yet seen account. -/
+theorem collectRejected_spec {ps : List Payment} {t : Addr} {srcs seen : List Addr} {l : List Payment}
+    (hk : (ps.map payKey).Nodup) (h : collectRejected ps t srcs seen = some l) :
+    (∀ p ∈ l, p ∈ ps ∧ p.source ∉ seen) ∧ (l.map payKey).Nodup ∧
+    ∀ b e, paysObl l b e =
+      paysObl (ps.filter fun p => decide (p.target = t) && (srcs.contains p.source && !seen.contains p.source)) b e := by
+  induction srcs generalizing seen l with
+  | nil =>
+    simp only [collectRejected] at h
+    injection h with h; subst h
+    refine ⟨by simp, by simp, fun b e => ?_⟩
+    have : (ps.filter fun p => decide (p.target = t) && (([] : List Addr).contains p.source && !seen.contains p.source)) = [] := by
+      simp
+    rw [this]
+  | cons src rest ih =>
+    simp only [collectRejected] at h
+    split at h
+    · rename_i hseen
+      have hm : src ∈ seen := by simpa using hseen
+      obtain ⟨h1, h2, h3⟩ := ih h
+      refine ⟨h1, h2, fun b e => ?_⟩
+      rw [h3]
+      apply paysObl_filter_congr
+      intro p _
+      by_cases hp : p.source = src
+      · simp [hp, hm]
+      · simp [hp]
+    · rename_i hseen
+      simp only [Bool.not_eq_true] at hseen
+      split at h
+      · simp at h
+      · split at h
+        · simp at h
+        · rename_i l' hl'
+          injection h with h; subst h
+          obtain ⟨h1, h2, h3⟩ := ih hl'
+          have hsp : ∀ p ∈ paymentsForTargetAndSource ps t src, p ∈ ps ∧ p.source = src := by
+            intro p hp
+            simp only [paymentsForTargetAndSource, List.mem_filter, decide_eq_true_eq] at hp
+            exact ⟨hp.1, hp.2.2⟩
+          refine ⟨?_, ?_, fun b e => ?_⟩
+          · intro p hp
+            rcases List.mem_append.mp hp with hp | hp
+            · obtain ⟨hm, hs⟩ := hsp p hp
+              refine ⟨hm, ?_⟩
+              rw [hs]
+              intro hc
+              have : seen.contains src = true := by simpa using hc
+              rw [this] at hseen; cases hseen
+            · obtain ⟨hm, hs⟩ := h1 p hp
+              exact ⟨hm, fun hc => hs (List.mem_cons_of_mem _ hc)⟩
+          · rw [List.map_append]
+            refine List.nodup_append.mpr ⟨?_, h2, ?_⟩
+            · exact hk.sublist (List.Sublist.map payKey List.filter_sublist)
+            · intro x hx y hy hxy
+              obtain ⟨p, hp, rfl⟩ := List.mem_map.mp hx
+              obtain ⟨q, hq, rfl⟩ := List.mem_map.mp hy
+              have hps := (hsp p hp).2
+              have hqs := (h1 q hq).2
+              apply hqs
+              have : q.source = p.source := by
+                have := congrArg Prod.fst hxy
+                simpa [payKey] using this.symm
+              rw [this, hps]; simp
+          · have hm : src ∉ seen := by
+              intro hc
+              have : seen.contains src = true := by simpa using hc
+              rw [this] at hseen; cases hseen
+            have hsplit := paysObl_filter_split ps
+              (fun p => decide (p.target = t) && ((src :: rest).contains p.source && !seen.contains p.source))
+              (fun p => decide (p.target = t ∧ p.source = src))
+              (fun p => decide (p.target = t) && (rest.contains p.source && !(src :: seen).contains p.source))
+              (by
+                intro p _
+                by_cases hp : p.source = src
+                · simp [hp, hm]
+                · simp [hp]) b e
+            rw [paysObl_append, h3, hsplit]
+            rfl
+
+theorem rejectPayments_inv {s s' : State} {t : Addr} {srcs : List Spelled} (hi : Inv s)
     (h : rejectPayments s t srcs = .ok s') :
     Inv s' ∧ ∀ b e, hold s' b e = hold s b e -
-      paysObl (s.payments.filter fun p => p.target = t ∧ srcs.contains p.source) b e := by
+      paysObl (s.payments.filter fun p => p.target = t ∧ (srcs.map (·.acct)).contains p.source) b e := by
   unfold rejectPayments at h
   split at h
   · simp at h
   · split at h
     · simp at h
-    · split at h
+    · rename_i ps hps
+      split at h
       · simp at h
       · rename_i s1 hs1
         injection h with h; subst h
-        exact deletePaymentsAndReleaseHolds_inv hi
-          (hi.wf.keys.sublist (List.Sublist.map payKey List.filter_sublist))
-          (fun p hp => getPayment_of_mem_nodup hi.wf.keys (List.mem_filter.mp hp).1) hs1
+        obtain ⟨h1, h2, h3⟩ := collectRejected_spec hi.wf.keys hps
+        obtain ⟨hinv, hh⟩ := deletePaymentsAndReleaseHolds_inv hi h2
+          (fun p hp => getPayment_of_mem_nodup hi.wf.keys (h1 p hp).1) hs1
+        refine ⟨hinv, fun b e => ?_⟩
+        rw [hh, h3]
+        congr 2
+        apply List.filter_congr
+        intro p _
+        simp
 
 theorem lookupPayments_spec {ps : List Payment} {src : Addr} {exts : List String} {l : List Payment}
     (h : lookupPayments ps src exts = some l) :
